@@ -134,9 +134,9 @@ pub fn min_wide(seed: u64) {
     let n = w + 900;
     let mut s: Vec<u8> = (0..n).map(|_| *rng.pick(b"CG")).collect();
     let p0 = 150 + rng.below(100) as usize;
-    s[p0..p0 + 6].copy_from_slice(b"AAAAAG");       // (the m-mer after it, AAAAG, is larger than the far one, AAAAC)
+    s[p0..p0 + 6].copy_from_slice(b"AAAAAT");       // (the m-mer after it, AAAAT, is larger than the far one, AAAAG - whose code is even)
     let p1 = p0 + 65_560 + rng.below(30) as usize;
-    s[p1..p1 + 5].copy_from_slice(b"AAAAC");
+    s[p1..p1 + 5].copy_from_slice(b"AAAAG");
     minimiser_run(&s, w, m);
     println!("{}", json!({"ev":"eof"}));
 }
